@@ -285,7 +285,7 @@ func rulePrecisionZero(w *World, r *RuleResult) {
 		switch {
 		case allTrue:
 			r.ok(k2, w.instrPos(c), "passes true", false)
-		case w.shortName(g) == "(*Context).quantize":
+		case w.ownerIn(g, []string{"(*Context).quantize"}) != "":
 			r.ok(k2, w.instrPos(c), "tabled: quantize rounds to a computed digit count that may legitimately be 0", true)
 		default:
 			r.bad(k2, w.instrPos(c), "passes "+e.String()+": with Precision 0 this caller would round to zero digits instead of returning the exact result")
